@@ -116,6 +116,7 @@ pub fn run(ctx: &mut Ctx) {
         ("S = .. 00 (high byte zero)", 1, Box::new(|s| s[31] == 0)),
         ("S = 00 xx 00 ..", if ctx.quick() { 1 } else { 4 }, Box::new(|s| s[0] == 0 && s[1] != 0 && s[2] == 0)),
         ("S = 00 00 xx ..", if ctx.quick() { 1 } else { 4 }, Box::new(|s| s[0] == 0 && s[1] == 0 && s[2] != 0)),
+        ("S = .. 00 00 (two high bytes zero)", if ctx.quick() { 1 } else { 3 }, Box::new(|s| s[31] == 0 && s[30] == 0)),
     ];
     for (si, (label, reps, pred)) in shapes.iter().enumerate() {
         for rep in 0..*reps {
